@@ -23,7 +23,7 @@ CFG = dict(
     rule="seeded histories (18-60 ops, 1-2 shares with fresh BLS keys per history, all on one on-disk Badger DB) over {add, addfail, remove, removefail, bump, "
          "bbegin/bread/bwrite (real BumpSlashingProtection paused at its storage calls), satt, sblk (full/blinded), sattf/sblkf (the request's record write fails: storage error, or the real Badger DB is closed just before the write and then reopened), tick, restart}; every 6th history is a multi-share block (3-5 shares with different records; share 0 is asked 400-700 times for objects its own record refuses while one goroutine per other share hammers the read-only pre-checks; requests under a timeout); sources/targets/slots drawn at, "
          "just below and around the clock and the stored record; 'malformed' histories add targets/slots above the clock, source >= target, far-future values; "
-         "while a bump is in flight (it holds the wallet lock) the clock advances and ONE lock-taking request is issued in a goroutine: it must block and complete only after the bump has finished (observed via resume; a request that never returns is a harness error); thorough tier adds concurrent sign requests for one share under a timeout. Every op line is run on "
+         "while a bump is in flight (it holds the wallet lock) the clock advances and ONE lock-taking request is issued in a goroutine: whether it has to wait is probed on the real wallet lock (TryLock/TryRLock); a waiting request must complete after the bump has finished (observed via resume), a non-waiting one is executed at once; every non-waiting call runs under a 6 s per-op watchdog (outcome `hang`, world abandoned, run stops after 8 hangs); thorough tier adds concurrent sign requests for one share under a timeout. Every op line is run on "
          "the real signer and on the Lean model (outcome + read-back of both records and the account are diffed). A case is distinct+non-trivial per "
          "(op kind, relation of the request to the stored record, well-formedness, outcome, pre-check result) key computed by the harness.",
     trusted_base=["clock mock: BeaconNetwork wrapper overriding EstimatedCurrentSlot/EstimatedCurrentEpoch of networkconfig.TestNetwork's beacon network",
